@@ -153,6 +153,47 @@ fn trunk_nets() -> Vec<Net> {
     out
 }
 
+/// three corridors from 0 to the destination: A = 0 -> 1 -> D, B = 0 -> 2 -> D, and C which shares one edge with A or with B
+/// (its first or its last) and goes round through a further vertex; lengths put them in the order A < B < C or A < C < B. A
+/// third route has to be judged against *every* route accepted before it, not only against the latest one
+fn fork_nets() -> Vec<Net> {
+    let mut out = vec![];
+    for shared_with_a in [true, false] {
+        for share_first in [true, false] {
+            for c_before_b in [false, true] {
+                for extra_tail in [false, true] {
+                    // vertices: 0 origin, 1 on A, 2 on B, 3 on C, (4 on C when its private part has three edges), destination last
+                    let d = if extra_tail { 5 } else { 4 };
+                    let (la, lb, lc) = if c_before_b { (1.0, 1.6, 1.2) } else { (1.0, 1.1, 1.5) };
+                    let mut edges = vec![(0usize, 1usize, la), (1, d, la), (0, 2, lb), (2, d, lb)];
+                    let mid = if shared_with_a { 1 } else { 2 };
+                    if share_first {
+                        // 0 -> mid shared, then mid -> 3 (-> 4) -> D
+                        edges.push((mid, 3, lc));
+                        if extra_tail {
+                            edges.push((3, 4, 0.01));
+                            edges.push((4, d, lc));
+                        } else {
+                            edges.push((3, d, lc));
+                        }
+                    } else {
+                        // 0 -> 3 (-> 4) -> mid, then mid -> D shared
+                        edges.push((0, 3, lc));
+                        if extra_tail {
+                            edges.push((3, 4, 0.01));
+                            edges.push((4, mid, lc));
+                        } else {
+                            edges.push((3, mid, lc));
+                        }
+                    }
+                    out.push(Net { n: d + 1, edges, xy: None });
+                }
+            }
+        }
+    }
+    out
+}
+
 struct Space {
     nets: Vec<Net>,
     algos: Vec<(Algo, Option<usize>)>,
@@ -199,7 +240,15 @@ impl Space {
                     }
                 }
             }
-            (trunk_nets(), a)
+            // the fork family wants low thresholds (one shared edge of two or three) and room for a third and fourth route
+            for k in [3usize, 4] {
+                for sim in [Sim::EdgeCos(0.3), Sim::EdgeCos(0.45), Sim::DistCos(0.3)] {
+                    a.push((Algo::SingleVia { k, under: Box::new(Algo::Dijkstra), sim: Some(sim), term: None }, None));
+                }
+            }
+            let mut nets = trunk_nets();
+            nets.extend(fork_nets());
+            (nets, a)
         };
         Space { nets: nets(&specs(yens, tier)), algos: ksp_algos(yens, tier), extra_nets, extra_algos, trunk_nets, trunk_algos }
     }
